@@ -178,6 +178,9 @@ def main():
     ep = os.path.join(ROOT, "seeded", "EXTRA.json")
     if os.path.exists(ep):
         extra = json.load(open(ep))
+    extx = {}
+    if os.path.exists(os.path.join(ROOT, "seeded", "EXTENSIONS.json")):
+        extx = json.load(open(os.path.join(ROOT, "seeded", "EXTENSIONS.json")))
     for sid in sorted(os.listdir(os.path.join(ROOT, "seeded"))):
         d = os.path.join(ROOT, "seeded", sid)
         if not os.path.isdir(d):
@@ -196,9 +199,29 @@ def main():
             "detection": {
                 "how": "tools/seedtest.sh seeded/%s %s quick: the check's quick tier run against the scratch copy (VERIF_REPO), known findings active" % (sid, prop),
                 "check": prop, "tier": "quick", "detected": r.get("detected"), "clauses": r.get("clauses"), "note": r.get("note", ""),
+                "check_extension_needed": extx.get(sid, ""),
             },
         }
         json.dump(meta, open(os.path.join(d, "meta.json"), "w"), indent=1, ensure_ascii=False)
+    # human-readable table
+    rows = ["# Seeded changes", "",
+            "Each directory holds `patch.diff` (applies to /repo's current tree), `demo/` (fails with the change, passes without),",
+            "`notes.md` (the author's account) and `meta.json` (written by tools/seedmeta.py from tools/seedmatrix.sh results).",
+            "Authors were independent sub-agents given only the property text and a scratch worktree; none of these changes is",
+            "ever committed to /repo. `detected` = the property's quick check, run against a scratch copy with the change applied,",
+            "exits 1 with a VIOLATION line whose clause is listed. `extension` = what had to be added to the check before it did.", "",
+            "| seed | change | needs to manifest | detected (quick) | clauses | extension that was needed |", "|---|---|---|---|---|---|"]
+    ext = {}
+    xp = os.path.join(ROOT, "seeded", "EXTENSIONS.json")
+    if os.path.exists(xp):
+        ext = json.load(open(xp))
+    for sid in sorted(T):
+        prop, what, needs = T[sid]
+        r = results.get(sid, {})
+        cl = ", ".join(sorted(set(c.split(" ")[0].replace("clause=", "") for c in r.get("clauses", []))))
+        rows.append("| %s | %s | %s | %s | %s | %s |" % (sid, what.replace("|", "\\|"), needs.replace("|", "\\|"),
+                    {True: "yes", False: "NO", None: "not run"}[r.get("detected")], cl, ext.get(sid, "")))
+    open(os.path.join(ROOT, "seeded", "README.md"), "w").write("\n".join(rows) + "\n")
     print("meta.json written for", len([x for x in os.listdir(os.path.join(ROOT, "seeded")) if os.path.isdir(os.path.join(ROOT, "seeded", x))]), "seeds")
 
 if __name__ == "__main__":
